@@ -294,8 +294,10 @@ PbfAdd == /\ pc = "add"
                                    !.grp = Append(@, [enc |-> enc, k |-> k]), !.regs = RegsAfter(opt, e, tbl2, @)]
              /\ pend' = pend - k
              /\ pc' = IF pend - k > 0 THEN "obj" ELSE "feed"
-             \* was the decision to stop (or not to stop) adding close to the gate?
-             /\ robust' = (robust /\ ~Near(blk.size + k * sz, GateSize) /\ (k > 1 => ~Near(blk.size + (k - 1) * sz, GateSize)))
+             \* Was the decision to stop (or not to stop) adding close to the gate?  It only matters for objects that are large
+             \* enough to lift a block from the gate over the limit: a flipped decision changes the block by one object.
+             /\ robust' = (robust /\ (sz > MaxBlob - GateSize - Tolerance =>
+                                        ~Near(blk.size + k * sz, GateSize) /\ (k > 1 => ~Near(blk.size + (k - 1) * sz, GateSize))))
           /\ UNCHANGED <<opt, input, blobs, recs, hdr, werr, bi, out, rhdr, rerr>> /\ Tick /\ Log("PbfAdd")
 
 TextWrite == /\ pc = "obj" /\ ~IsPbf(opt)
@@ -374,12 +376,15 @@ Bounded == steps <= 400
 TypeOK == /\ pc \in {"open", "feed", "obj", "add", "header", "data", "done"}
           /\ pend >= 0 /\ bi >= 1
 
+\* the projection plus the location token without the named deviations D1/D2: an implementation that keeps the location
+\* satisfies the property as stated and is accepted by the replay as well
+WithAlt(p, e) == [f \in DOMAIN p \cup {"locAlt"} |-> IF f = "locAlt" THEN e.loc ELSE p[f]]
 BlocksOut == [i \in 1..Len(blobs) |-> [type |-> blobs[i].type, count |-> blobs[i].count, size |-> blobs[i].size,
                                         strings |-> Len(blobs[i].tbl)]]
 Export == (pc = "done" /\ robust) =>
             PrintT(<<"CASE", ToJson([opt |-> opt, input |-> input,
                                      exp |-> [outcome |-> AOutcome(opt, input), ioutcome |-> IOutcome,
-                                              objs |-> [i \in 1..Len(input) |-> Project(opt, input[i])],
+                                              objs |-> [i \in 1..Len(input) |-> WithAlt(Project(opt, input[i]), input[i])],
                                               hdr |-> ProjectHeader(opt),
                                               required |-> hdr.required, optional |-> hdr.optional,
                                               blocks |-> BlocksOut]])>>)
